@@ -14,6 +14,7 @@ pub const PATHS: &[&str] = &[
     "日本/語.c",
     "/abs/outside/z.c",
     "top.js",
+    "trailing/space.txt ",
 ];
 pub const FNS: &[&str] = &[
     "main",
@@ -29,6 +30,8 @@ pub const FNS: &[&str] = &[
     "2,init",
     "7",
     "0,0,x",
+    "operator ",
+    " lead\t",
 ];
 
 pub fn gen_result(rng: &mut Rng, big: bool) -> CovResult {
